@@ -116,6 +116,7 @@ fn worker(args: &[String]) -> i32 {
     let mut violations = vec![];
     let mut listing = vec![];
     let known = known_findings();
+    let isolated = std::env::var("VERIF_ISOLATED").map(|v| v == "1").unwrap_or(false);
     let stdout = std::io::stdout();
     let mut idx = w;
     while idx < n {
@@ -161,6 +162,106 @@ fn worker(args: &[String]) -> i32 {
     let _ = writeln!(o, "R {}", serde_json::to_string(&rep).unwrap());
     let _ = o.flush();
     0
+}
+
+fn merge_stats(into: &mut Stats, s: Stats) {
+    into.indices += s.indices;
+    into.runs += s.runs;
+    into.model_runs += s.model_runs;
+    into.oracle_runs += s.oracle_runs;
+    into.steps += s.steps;
+    into.decisions += s.decisions;
+    into.switches += s.switches;
+    into.preemptions += s.preemptions;
+    into.determinism_rechecks += s.determinism_rechecks;
+    for (k, v) in s.fired {
+        *into.fired.entry(k).or_insert(0) += v;
+    }
+    for (k, v) in s.probes {
+        *into.probes.entry(k).or_insert(0) += v;
+    }
+    for (k, v) in s.skipped {
+        *into.skipped.entry(k).or_insert(0) += v;
+    }
+    for x in s.samples {
+        if into.samples.len() < 12 {
+            into.samples.push(x);
+        }
+    }
+    into.nondeterminism.extend(s.nondeterminism);
+    into.harness_errors.extend(s.harness_errors);
+    into.interleavings.extend(s.interleavings);
+    into.histories.extend(s.histories);
+    into.nontrivial.extend(s.nontrivial);
+    into.cases.extend(s.cases);
+}
+
+/// what a forked child (isolated mode) sends back for one index
+#[derive(Serialize, Deserialize)]
+struct IndexReport {
+    stats: Stats,
+    violations: Vec<Violation>,
+    digest: u64,
+    sets: [Vec<u64>; 4],
+}
+
+/// isolated mode: run one index in a forked child, so that state the seam does not control
+/// (thread-locals, plain statics) cannot leak from one simulated process into the next
+fn run_index_forked(p: &dyn Prop, idx: u64, seed: u64, tier: Tier) -> Result<IndexReport, String> {
+    let mut fds = [0i32; 2];
+    if unsafe { libc::pipe(fds.as_mut_ptr()) } != 0 {
+        return Err("pipe failed".into());
+    }
+    let pid = unsafe { libc::fork() };
+    if pid < 0 {
+        return Err("fork failed".into());
+    }
+    if pid == 0 {
+        unsafe { libc::close(fds[0]) };
+        let mut rt = Rt::new();
+        for pr in p.meta().probes {
+            rt.declare_probe(pr);
+        }
+        let vs = p.run_index(idx, seed, tier, &mut rt);
+        rt.stats.indices = 1;
+        let sets = [
+            rt.stats.interleavings.iter().copied().collect(),
+            rt.stats.histories.iter().copied().collect(),
+            rt.stats.nontrivial.iter().copied().collect(),
+            rt.stats.cases.iter().copied().collect(),
+        ];
+        let rep = IndexReport { digest: rt.digest, stats: rt.stats, violations: vs, sets };
+        let bytes = serde_json::to_vec(&rep).unwrap();
+        let mut off = 0;
+        while off < bytes.len() {
+            let n = unsafe { libc::write(fds[1], bytes[off..].as_ptr() as *const libc::c_void, bytes.len() - off) };
+            if n <= 0 {
+                break;
+            }
+            off += n as usize;
+        }
+        unsafe { libc::_exit(0) };
+    }
+    unsafe { libc::close(fds[1]) };
+    let mut buf = vec![];
+    let mut chunk = [0u8; 65536];
+    loop {
+        let n = unsafe { libc::read(fds[0], chunk.as_mut_ptr() as *mut libc::c_void, chunk.len()) };
+        if n <= 0 {
+            break;
+        }
+        buf.extend_from_slice(&chunk[..n as usize]);
+    }
+    unsafe { libc::close(fds[0]) };
+    let mut status = 0i32;
+    unsafe { libc::waitpid(pid, &mut status, 0) };
+    let mut rep: IndexReport = serde_json::from_slice(&buf).map_err(|e| format!("child for index {} died (status {}): {}", idx, status, e))?;
+    let [a, b, c, dd] = std::mem::take(&mut rep.sets);
+    rep.stats.interleavings = a.into_iter().collect();
+    rep.stats.histories = b.into_iter().collect();
+    rep.stats.nontrivial = c.into_iter().collect();
+    rep.stats.cases = dd.into_iter().collect();
+    Ok(rep)
 }
 
 struct Merged {
@@ -254,28 +355,7 @@ fn run_workers(id: &str, tier: Tier, seed: u64, nw: usize, listing: bool) -> Mer
     }
     let mut m = Merged { stats: Stats::default(), violations: vec![], listing: vec![], harness };
     for r in reports {
-        let s = r.stats;
-        m.stats.indices += s.indices;
-        m.stats.runs += s.runs;
-        m.stats.model_runs += s.model_runs;
-        m.stats.oracle_runs += s.oracle_runs;
-        m.stats.steps += s.steps;
-        m.stats.decisions += s.decisions;
-        m.stats.switches += s.switches;
-        m.stats.preemptions += s.preemptions;
-        m.stats.determinism_rechecks += s.determinism_rechecks;
-        for (k, v) in s.fired {
-            *m.stats.fired.entry(k).or_insert(0) += v;
-        }
-        for (k, v) in s.probes {
-            *m.stats.probes.entry(k).or_insert(0) += v;
-        }
-        for (k, v) in s.skipped {
-            *m.stats.skipped.entry(k).or_insert(0) += v;
-        }
-        m.stats.samples.extend(s.samples);
-        m.stats.nondeterminism.extend(s.nondeterminism);
-        m.stats.harness_errors.extend(s.harness_errors);
+        merge_stats(&mut m.stats, r.stats);
         for (name, path) in r.files {
             let set = match name.as_str() {
                 "interleavings" => &mut m.stats.interleavings,
@@ -474,6 +554,12 @@ pub fn check(p: &dyn Prop, tier: Tier, seed: u64) -> i32 {
     let lint = lint_repo();
     for l in &lint {
         println!("SEAM-LINT: {}", l);
+    }
+    if !lint.is_empty() && std::env::var("VERIF_ISOLATED").is_err() {
+        // state outside the seam (thread-locals, plain statics, other primitives) could leak from one
+        // simulated process into the next: give every case index its own forked OS process
+        println!("SEAM-LINT: {} finding(s): switching to isolated mode (one forked process per case index)", lint.len());
+        std::env::set_var("VERIF_ISOLATED", "1");
     }
     let nw = workers_env();
     let merged = run_workers(meta.id, tier, seed, nw, false);
